@@ -23,9 +23,9 @@ EXPLANATION = ("The source dataset (1-2 scales with different chunk sizes) consi
                "runs; every chunk of every destination scale is read back with a fresh accessor and proved equal to the "
                "(type-converted) source voxel; the source files are compared byte-for-byte before/after.")
 BOUNDS = {"quick": "sizes up to 4 per axis, 1-2 channels, 1-2 scales; raw<->compressed_segmentation, uint8->uint32/uint64, uint32->uint64, "
-                   "deep/flat/gzip/sharded destinations and sources, with and without --copy-info, through main(argv) as well",
+                   "deep/flat/gzip/sharded destinations and sources, remote (model HTTP server) flat sources, with and without --copy-info, through main(argv) as well",
           "thorough": "more combinations, 3 scales"}
-OUTSIDE = ["lossy (JPEG) targets", "remote (HTTP) sources: covered by C14's reader equivalence", "narrowing conversions (C11)"]
+OUTSIDE = ["lossy (JPEG) targets", "narrowing conversions (C11)", "remote sharded sources"]
 
 
 def _cfg(size, cs_list, C, sd, dd, senc="raw", denc="raw", slay="deep", dlay="deep", copy_info=False, via_main=False, **kw):
@@ -51,6 +51,9 @@ def configs(tier, seed):
         _cfg((2, 4, 4), [(2, 4, 1)], 1, "uint16", "uint16", dlay="flat"),
         _cfg((4, 2, 4), [(1, 2, 4), (4, 1, 2)], 1, "uint8", "uint8", dlay="gzip"),
         _cfg((3, 4, 2), [(3, 1, 2)], 1, "uint8", "uint16", slay="gzip"),
+        # remote sources: the source directory is served by the model HTTP server (flat layout, gzip on/off)
+        _cfg((3, 2, 2), [(2, 2, 2), (2, 1, 1)], 1, "uint16", "uint16", slay="flat", dlay="deep", remote=True),
+        _cfg((2, 2, 3), [(2, 2, 2)], 2, "uint8", "uint32", slay="flat_gzip", dlay="sharded", remote=True),
     ]
     if tier == "thorough":
         out += [_cfg((4, 4, 4), [(2, 2, 2), (2, 2, 2), (1, 1, 1)], 1, "uint16", "uint16", dlay="sharded", cost=5),
@@ -77,7 +80,7 @@ def _info(cfg, dtype, enc, layout):
 
 
 def _opts(layout):
-    return dict(flat=layout == "flat", gzip=layout == "gzip")
+    return dict(flat=layout in ("flat", "flat_gzip"), gzip=layout in ("gzip", "flat_gzip"))
 
 
 def _same_file(a, b):
@@ -120,14 +123,21 @@ def H_convert(ctx, cfg):
         W.put_info(dst_url, dinfo)
     cc_mod = W.script("convert_chunks", np=W.npx, tqdm=V.NoTqdm)
     options = _opts(cfg["dlay"])
+    if cfg.get("remote"):
+        from ..modelhttp import ModelServer, make_requests
+        server = ModelServer(W.env.fs, src_url, "http://h.test/src")
+        load.patch("http_accessor", requests=make_requests(server))
+        src_arg = "http://h.test/src"
+    else:
+        src_arg = src_url
     try:
         if cfg["via_main"]:
-            argv = ["convert-chunks", src_url, dst_url] + (["--flat"] if options["flat"] else []) + ([] if options["gzip"] else ["--no-gzip"])
+            argv = ["convert-chunks", src_arg, dst_url] + (["--flat"] if options["flat"] else []) + ([] if options["gzip"] else ["--no-gzip"])
             load.patch("utils", init_logging_for_cmdline=lambda: None)
             rc = cc_mod.main(argv)
             ctx.prove(rc == 0, "exit-status-0", detail=str(rc))
         else:
-            cc_mod.convert_chunks(src_url, dst_url, copy_info=cfg["copy_info"], options=options)
+            cc_mod.convert_chunks(src_arg, dst_url, copy_info=cfg["copy_info"], options=options)
         W.finish()
     except Exception as e:
         if type(e).__name__ in ("OutsideModel", "Inconclusive"):
